@@ -48,11 +48,27 @@ class Lifted(list):
 def side_walk(g, op, through=None, deep=None):
     """backward walk of a condition operand of guard g, at the comparison's program point, lifted through the call sites the guard
     was inherited through"""
-    b, i = g.cond.node
     res = Lifted()
-    cur_fn = g.fn
-    nodes = flow(cur_fn).walk(ops=[op], at=(b, i), through=through, deep=deep)
-    res.append((cur_fn, nodes))
+    if isinstance(op, InClosure):
+        # the operand lives in a closure: slice it there, then continue with everything the closure captures, at the point in the
+        # guard's function where the closure is built
+        cf = op.fn
+        cn_ = flow(cf).walk(ops=[op.op], at=op.node, through=through, deep=deep)
+        res.append((cf, cn_))
+        cur_fn = g.fn
+        nodes = set()
+        if any(n[0] == "p" and n[1] == 1 for n in cn_):
+            fl = flow(cur_fn)
+            for cb, ci, cs in cur_fn.assigns():
+                rv = cs["rv"]
+                if rv["k"] == "agg" and rv.get("agg") == "closure" and rv.get("closure") == cf.id:
+                    nodes |= fl.walk(ops=list(rv["ops"]), at=(cb, ci), through=through, deep=deep)
+        res.append((cur_fn, nodes))
+    else:
+        b, i = g.cond.node
+        cur_fn = g.fn
+        nodes = flow(cur_fn).walk(ops=[op], at=(b, i), through=through, deep=deep)
+        res.append((cur_fn, nodes))
     for caller, sites in getattr(g, "via", ()):
         params = {n[1] for n in nodes if n[0] == "p"}
         if not params:
@@ -86,11 +102,55 @@ def fields(g, sl):
     return out
 
 
+class InClosure:
+    """an operand of a comparison that lives in a closure handed to Iterator::all / Iterator::any by the guard's function"""
+    __slots__ = ("fn", "node", "op")
+
+    def __init__(self, fn, node, op):
+        self.fn, self.node, self.op = fn, node, op
+
+
+def _iter_predicate(g):
+    """`if it.all(|x| a == b) { Ok } else { Err }` / `if it.any(|x| a != b) { Err }`: the per-element comparison under which the guard
+    rejects, as (op, lhs, rhs) with operands living in the closure; None if the guard is not of that shape"""
+    from ..cfg import trace_cond, NEG
+    c = g.cond
+    if c.kind != "call" or c.call is None:
+        return None
+    cn = callee_name(c.call) or ""
+    if not cn.endswith(("Iterator::all", "Iterator::any")):
+        return None
+    cids = [cid for cid in g.fn.closure_args(c.call) if cid in g.fn.prog.fns]
+    if len(cids) != 1:
+        return None
+    cf = g.fn.prog.fns[cids[0]]
+    rets_ = [b for b, blk in enumerate(cf.blocks) if blk["t"]["k"] == "return"]
+    if len(rets_) != 1:
+        return None
+    cc = trace_cond(cf, {"copy": {"l": 0}})
+    if cc.kind != "cmp":
+        return None
+    # reject iff the call's value is (c.neg ? false : true)
+    if cn.endswith("Iterator::all"):
+        if not c.neg:
+            return None          # rejecting when every element satisfies p is not a per-element rejection
+        op = NEG[cc.op]          # reject iff some element fails p
+    else:
+        if c.neg:
+            return None
+        op = cc.op               # reject iff some element satisfies p
+    return op, InClosure(cf, cc.node, cc.lhs), InClosure(cf, cc.node, cc.rhs)
+
+
 def cmp_sides(g):
     """[(op, lhs, rhs)] in both orientations for a comparison guard (reject iff lhs op rhs)"""
     c = g.cond
     if c.kind != "cmp":
-        return []
+        ip = _iter_predicate(g)
+        if ip is None:
+            return []
+        op, l, r = ip
+        return [(op, l, r), (FLIP[op], r, l)]
     return [(c.op, c.lhs, c.rhs), (FLIP[c.op], c.rhs, c.lhs)]
 
 
@@ -109,6 +169,16 @@ def match_cmp(g, ops, left_pred, right_pred, through=None, deep=None):
 def has_callee(*suffixes):
     def pred(g, sl):
         ns = names(g, sl) | {n[1] for _, nodes in _pairs(g, sl) for n in nodes if n[0] == "cn"}
+        return any(n.endswith(suffixes) for n in ns)
+    return pred
+
+
+def has_callee_deep(*suffixes):
+    """like has_callee, also looking into the closures handed to the calls of the slice (`fold(.., |acc, x| acc + f(x))`)"""
+    def pred(g, sl):
+        ns = set()
+        for f, nodes in _pairs(g, sl):
+            ns |= flow(f).callee_names_in(nodes, closures=True)
         return any(n.endswith(suffixes) for n in ns)
     return pred
 
